@@ -216,3 +216,45 @@ def possibly_undefined(cfg, fn_node, params):
                     if any(d.kind in ("param", "del") for d in defs):
                         out.append((x.id, node, x))
     return out
+
+
+_MODULE_ATTRS = frozenset(("__name__", "__file__", "__doc__", "__package__", "__spec__", "__loader__", "__builtins__", "__debug__", "__class__", "__path__",
+                           "__annotations__", "__dict__", "__qualname__", "__module__"))
+
+
+def unbound_names(source, filename="<module>"):
+    """names that are read somewhere in the module but bound nowhere: not a local or a parameter of the reading scope or of an enclosing function, not assigned /
+    imported / defined at module level (on any path), not declared global and assigned in some function, not a builtin. Such a read raises NameError whenever it is
+    reached. Exact (no path reasoning): decided with the compiler's own symbol tables. Returns [(name, lineno of the scope, scope name)]; None for a module with `import *`."""
+    import symtable
+    import builtins
+    import ast as _ast
+    tree = _ast.parse(source, filename)
+    if any(isinstance(n, _ast.ImportFrom) and any(a.name == "*" for a in n.names) for n in _ast.walk(tree)):
+        return None
+    top = symtable.symtable(source, filename, "exec")
+    bound = set(dir(builtins)) | set(_MODULE_ATTRS)
+    for s in top.get_symbols():
+        if s.is_assigned() or s.is_imported() or s.is_namespace() or s.is_parameter():
+            bound.add(s.get_name())
+
+    def scopes(t):
+        for c in t.get_children():
+            yield c
+            yield from scopes(c)
+    for sc in scopes(top):
+        for s in sc.get_symbols():
+            if s.is_declared_global() and (s.is_assigned() or s.is_imported() or s.is_namespace()):
+                bound.add(s.get_name())
+    out = []
+    for sc in [top] + list(scopes(top)):
+        for s in sc.get_symbols():
+            if not s.is_referenced():
+                continue
+            if sc is top:
+                is_glob = True
+            else:
+                is_glob = s.is_global()
+            if is_glob and s.get_name() not in bound:
+                out.append((s.get_name(), sc.get_lineno(), sc.get_name()))
+    return sorted(set(out))
